@@ -138,6 +138,8 @@ pub struct GenProg {
     pub features: Vec<&'static str>,
     pub ast: Program,
     pub style: PrintStyle,
+    /// the configuration the program was generated with
+    pub cfg: FunGenCfg,
 }
 
 // ------------------------------------------------------------------------------------------------
@@ -209,6 +211,8 @@ struct Gen<'a> {
     helpers: HashMap<Ty, usize>,
     def_names: HashSet<String>,
     many_live_def: Option<usize>,
+    /// types certainly instantiated by the checker at the current point (enclosing `new`s)
+    inst_stack: Vec<Ty>,
 }
 
 include!("gen_fun_types.rs");
